@@ -138,7 +138,13 @@ impl ZervVars {
 
         // Apply timestamp override
         if let Some(bumped_timestamp) = args.overrides.common.bumped_timestamp {
-            self.bumped_timestamp = Some(bumped_timestamp as u64);
+            // The variable is unsigned: a negative value would wrap to a huge timestamp
+            let Ok(timestamp) = u64::try_from(bumped_timestamp) else {
+                return Err(ZervError::InvalidArgument(format!(
+                    "--bumped-timestamp must not be negative, got {bumped_timestamp}"
+                )));
+            };
+            self.bumped_timestamp = Some(timestamp);
         }
 
         Ok(())
